@@ -1,8 +1,206 @@
-/- EmdModel.Logger — (stub; filled in by the property that owns it) -/
+/-
+  EmdModel.Logger — the console-level state machine of `emd/logger.py` (C20).
+
+  State: the level of the handler named 'console' of logger 'emd' (`none` until `set_up` has run:
+  there is no such handler and `get_level()` returns `None`) and the process-global
+  `logging.disable` switch.  Operations: `set_up(level=…)`, `set_level`, `disable`, `enable`, and a
+  call of a `@wrap_verbose`-decorated sift function with `verbose=…` whose body returns or raises.
+
+  `wrapVerbose` mirrors `wrap_verbose.inner_verbose` line by line (after the D16 repair:
+  try/finally, restore skipped when there was no console handler); `wrapVerbosePinned` is the
+  pinned code (no `finally`, `logging._levelToName[None]`), kept for the `…_current` witnesses.
+-/
 import EmdModel.Protocol
 
 namespace Logger
 
-def handle (_o : Protocol.Op) : Option String := none
+inductive Level | critical | warning | info | debug
+  deriving DecidableEq, Repr
+
+/-- numeric values of the `logging` module -/
+def Level.num : Level → Nat
+  | .critical => 50 | .warning => 30 | .info => 20 | .debug => 10
+
+structure LogState where
+  console : Option Level      -- level of the 'console' handler; none = handler absent
+  disabled : Bool             -- logging.disable(sys.maxsize) in force
+  deriving DecidableEq, Repr
+
+/-- state right after `import emd`: NullHandler only -/
+def init : LogState := { console := none, disabled := false }
+
+/-- what the body of the decorated function does -/
+inductive Outcome | returns | raises
+  deriving DecidableEq, Repr
+
+/-- what the caller of the decorated function sees -/
+inductive CallResult
+  | returned          -- the body's value comes back
+  | raisedOwn         -- the body's own exception propagates
+  | raisedKeyError    -- the wrapper itself fails (`logging._levelToName[None]`)
+  deriving DecidableEq, Repr
+
+inductive Op
+  | setUp (lvl : Option Level)
+  | setLevel (lvl : Level)
+  | disable
+  | enable
+  | call (verbose : Option Level) (o : Outcome)
+  deriving DecidableEq, Repr
+
+def Op.isCall : Op → Bool
+  | .call _ _ => true
+  | _ => false
+
+/-- `set_level`: loops over the handlers and sets the one named 'console'; no handler, no effect -/
+def setLevel (s : LogState) (l : Level) : LogState :=
+  match s.console with
+  | none => s
+  | some _ => { s with console := some l }
+
+/-- `set_up`: `dictConfig` installs a fresh console handler at INFO (it does not touch
+    `logging.disable`), then `set_level(level)` when a level is given -/
+def setUp (s : LogState) (l : Option Level) : LogState :=
+  let s1 : LogState := { s with console := some .info }
+  match l with
+  | none => s1
+  | some l => setLevel s1 l
+
+def ownResult : Outcome → CallResult
+  | .returns => .returned
+  | .raises => .raisedOwn
+
+/-- what a decorated call shows: its result and the console level in force while the body ran -/
+structure CallObs where
+  result : CallResult
+  during : Option Level
+  deriving DecidableEq, Repr
+
+/-- `wrap_verbose.inner_verbose` (repaired):
+      if verbose is not None: current = get_level(); set_level(verbose)
+      try: out = func(...)
+      finally: if verbose is not None and current is not None: set_level(name(current))
+      return out -/
+def wrapVerbose (s : LogState) (v : Option Level) (o : Outcome) : LogState × CallObs :=
+  match v with
+  | none => (s, { result := ownResult o, during := s.console })
+  | some tmp =>
+    let current := s.console            -- get_level()
+    let s1 := setLevel s tmp            -- set_level(level=tmp_level)
+    -- body runs in s1; the `finally` clause runs on both outcomes
+    let s2 := match current with
+      | some c => setLevel s1 c
+      | none => s1
+    (s2, { result := ownResult o, during := s1.console })
+
+/-- the pinned `inner_verbose`: the restore is skipped when the body raises and indexes
+    `logging._levelToName[None]` when there was no console handler -/
+def wrapVerbosePinned (s : LogState) (v : Option Level) (o : Outcome) : LogState × CallObs :=
+  match v with
+  | none => (s, { result := ownResult o, during := s.console })
+  | some tmp =>
+    let current := s.console
+    let s1 := setLevel s tmp
+    match o with
+    | .raises => (s1, { result := .raisedOwn, during := s1.console })
+    | .returns =>
+      match current with
+      | some c => (setLevel s1 c, { result := .returned, during := s1.console })
+      | none => (s1, { result := .raisedKeyError, during := s1.console })
+
+/-- one operation, parameterised by the wrapper in use -/
+def stepWith (w : LogState → Option Level → Outcome → LogState × CallObs)
+    (s : LogState) : Op → LogState × Option CallObs
+  | .setUp l => (setUp s l, none)
+  | .setLevel l => (setLevel s l, none)
+  | .disable => ({ s with disabled := true }, none)
+  | .enable => ({ s with disabled := false }, none)
+  | .call v o => let r := w s v o; (r.1, some r.2)
+
+def step : LogState → Op → LogState × Option CallObs := stepWith wrapVerbose
+def stepPinned : LogState → Op → LogState × Option CallObs := stepWith wrapVerbosePinned
+
+/-- final state of a history -/
+def run (s : LogState) (ops : List Op) : LogState := ops.foldl (fun s op => (step s op).1) s
+
+/-- the states of a history: the start state followed by the state after each operation -/
+def traj (s : LogState) : List Op → List LogState
+  | [] => [s]
+  | op :: ops => s :: traj (step s op).1 ops
+
+/-- what each operation of a history shows (none for non-call operations) -/
+def observe (s : LogState) : List Op → List (Option CallObs)
+  | [] => []
+  | op :: ops => (step s op).2 :: observe (step s op).1 ops
+
+/-- is a record of level `r` written to the console while the level in force is `during`? -/
+def shown (s : LogState) (during : Option Level) (r : Level) : Bool :=
+  !s.disabled && match during with
+    | none => false
+    | some l => decide (l.num ≤ r.num)
+
+/-! ### protocol -/
+
+/-- generic trace used by the driver: for each operation the state after it, the call observation
+    and the `disabled` flag in force during it -/
+def trace (st : LogState → Op → LogState × Option CallObs) (s : LogState) :
+    List Op → List (LogState × Option CallObs × Bool)
+  | [] => []
+  | op :: ops => let r := st s op; (r.1, r.2, s.disabled) :: trace st r.1 ops
+
+def parseLevel? : String → Option Level
+  | "C" => some .critical | "W" => some .warning | "I" => some .info | "D" => some .debug
+  | _ => none
+
+def parseOptLevel? : String → Option (Option Level)
+  | "N" => some none
+  | s => (parseLevel? s).map some
+
+def parseOpTok? (t : String) : Option Op :=
+  match t.splitOn ":" with
+  | ["su", l] => (parseOptLevel? l).map .setUp
+  | ["sl", l] => (parseLevel? l).map .setLevel
+  | ["dis"] => some .disable
+  | ["en"] => some .enable
+  | ["c", v, "r"] => (parseOptLevel? v).map (.call · .returns)
+  | ["c", v, "x"] => (parseOptLevel? v).map (.call · .raises)
+  | _ => none
+
+def fmtLevel : Option Level → String
+  | none => "-1"
+  | some l => toString l.num
+
+def fmtResult : Option CallObs → String
+  | none => "0"
+  | some { result := .returned, .. } => "1"
+  | some { result := .raisedOwn, .. } => "2"
+  | some { result := .raisedKeyError, .. } => "3"
+
+def handle (o : Protocol.Op) : Option String :=
+  match o.name with
+  | "LOGRUN" => some <| Id.run do
+      let some start := o.nat? "start" | return "bad-op"
+      let some variant := o.str? "variant" | return "bad-op"
+      let some opsStr := o.str? "ops" | return "bad-op"
+      let toks := if opsStr = "-" then [] else opsStr.splitOn ","
+      let some ops := toks.mapM parseOpTok? | return "bad-op"
+      let s0 ← match start with
+        | 0 => pure init
+        | 1 => pure (setUp init none)
+        | _ => return "bad-op"
+      let st ← match variant with
+        | "fixed" => pure step
+        | "pinned" => pure stepPinned
+        | _ => return "bad-op"
+      let tr := trace st s0 ops
+      let levels := tr.map fun x => fmtLevel x.1.console
+      let results := tr.map fun x => fmtResult x.2.1
+      -- during a call: is the INFO record 'STARTED: …' / the DEBUG record 'Input data size' shown?
+      let vis (r : Level) := tr.map fun x => match x.2.1 with
+        | none => "0"
+        | some c => Protocol.fmtBool (shown { console := none, disabled := x.2.2 } c.during r)
+      let sp := " ".intercalate
+      return s!"ok | {sp levels} | {sp results} | {sp (vis .info)} | {sp (vis .debug)}"
+  | _ => none
 
 end Logger
